@@ -4,6 +4,22 @@ Import ListNotations.
 From CF Require Import PyDict.
 Open Scope Z_scope.
 
+(* chipfiring/CFiringScript.py :: CFiringScript.__init__   reads [], writes ['self_script'], may raise *)
+Definition CFiringScript___init__ (graph_vertices : list nat) (graph_graph : dictD) (script : (option dictZ)) : pyres (dictZ) (dictZ) :=
+  let self_script := (@nil (nat * Z)) in
+  let self_script := [] in
+  match script with Some script =>
+  match fold_left (fun acc_ kv_ => match acc_ with PyExn e_ => PyExn e_ | PyOk self_script => let '(vertex_name, firings) := kv_ in
+  let vertex := vertex_name in
+  if (negb (s_mem vertex graph_vertices)) then
+  PyExn self_script
+  else
+  let self_script := d_set vertex firings self_script in
+  PyOk self_script end) script (PyOk self_script) with PyExn e_ => PyExn e_ | PyOk self_script =>
+  PyOk self_script end
+  | None =>
+  PyOk self_script end.
+
 (* chipfiring/CFiringScript.py :: CFiringScript.get_firings   reads ['self_graph_vertices', 'self_script'], writes [], may raise *)
 Definition CFiringScript_get_firings (self_graph_vertices : list nat) (self_script : dictZ) (vertex_name : nat) : pyres (unit) Z :=
   let vertex := vertex_name in
